@@ -52,6 +52,8 @@ pub struct Client {
     pub db_key: [u8; 32],
     pub cb: Arc<CbLog>,
     pub cfg: MdkConfig,
+    /// the driver's own record of when each stored snapshot was taken: (group, snapshot name) -> (t0, t1, stamp seen)
+    pub snap_born: BTreeMap<(String, String), (u64, u64, u64)>,
 }
 
 #[derive(Clone)]
@@ -80,6 +82,7 @@ pub struct WelcomeInfo {
     pub chain: String,               // chain the joiner lands on
     pub g: String,
     pub wrappers: Vec<EventId>,
+    pub kp_ref: Vec<u8>, // serialized hash reference of the key package this invitation was built for
 }
 
 pub struct World {
@@ -160,6 +163,7 @@ impl World {
             db_key,
             cb,
             cfg: self.cfg.clone(),
+            snap_born: BTreeMap::new(),
         };
         if backend == "sql" {
             c.dir = Some(tempfile::tempdir().expect("tempdir"));
@@ -297,6 +301,10 @@ impl Client {
     }
 }
 
+pub fn unix_now() -> u64 {
+    std::time::SystemTime::now().duration_since(std::time::UNIX_EPOCH).unwrap().as_secs()
+}
+
 fn relay(s: &str) -> RelayUrl {
     RelayUrl::parse(s).unwrap()
 }
@@ -397,14 +405,31 @@ impl World {
     }
 
     pub fn key_package_event(&self, c: &str) -> Event {
+        self.key_package_event_ref(c).0
+    }
+
+    pub fn key_package_event_ref(&self, c: &str) -> (Event, Vec<u8>) {
         let cl = &self.clients[c];
-        let (content, tags, _) = with_mdk!(cl.store.as_ref().unwrap(), m =>
+        let (content, tags, href) = with_mdk!(cl.store.as_ref().unwrap(), m =>
             m.create_key_package_for_event(&cl.pk(), vec![relay("wss://r1.example")]))
         .expect("key package");
-        EventBuilder::new(Kind::MlsKeyPackage, content)
+        (EventBuilder::new(Kind::MlsKeyPackage, content)
             .tags(tags)
             .sign_with_keys(&cl.keys)
-            .expect("sign kp")
+            .expect("sign kp"), href)
+    }
+
+    /// Routine key-package rotation: the invitee deletes the key package invitation `w` was built for.
+    pub fn op_dropkp(&mut self, c: &str, w: &str) -> Value {
+        let wi = &self.welcomes[w];
+        let g = wi.g.clone();
+        let href = wi.kp_ref.clone();
+        let cl = &self.clients[c];
+        let res = if wi.to != c || href.is_empty() { "Skip" } else {
+            let r = catch_unwind(AssertUnwindSafe(|| with_mdk!(cl.store.as_ref().unwrap(), m => m.delete_key_package_from_storage_by_hash_ref(&href))));
+            match r { Err(_) => "Panic", Ok(Err(e)) => { crate::logcap::push(format!("ERRVAL {e} || {e:?}")); "Err" }, Ok(Ok(())) => "Ok" }
+        };
+        json!({"op":"DropKP","c":c,"w":w,"g":g,"res":res,"post":self.project(c,&g)})
     }
 
     /// Create group `g` at client `c` with `members` (all process+accept their welcome at once).
@@ -460,6 +485,7 @@ impl World {
         let parent = self.chain_of(c, g, None);
         self.set_override(ts, rank);
         let mut added: Vec<String> = vec![];
+        let mut kp_refs: Vec<Vec<u8>> = vec![];
         let rot_nid: [u8; 32] = match arg.as_str().filter(|a| a.starts_with('=')) {
             // hostile admin: rotate onto an id that already belongs to another group
             Some(a) => self.nids.iter().find(|(_, n)| n.as_str() == &a[1..]).map(|(k, _)| *k).unwrap_or_else(rand::random),
@@ -500,7 +526,9 @@ impl World {
             }
             "add" => {
                 let names: Vec<String> = arg.as_array().unwrap().iter().map(|x| x.as_str().unwrap().to_string()).collect();
-                let kps: Vec<Event> = names.iter().map(|n| self.key_package_event(n)).collect();
+                let kpr: Vec<(Event, Vec<u8>)> = names.iter().map(|n| self.key_package_event_ref(n)).collect();
+                let kps: Vec<Event> = kpr.iter().map(|x| x.0.clone()).collect();
+                kp_refs = kpr.into_iter().map(|x| x.1).collect();
                 added = names;
                 with_mdk!(st, m => m.add_members(&gid, &kps))
             }
@@ -527,6 +555,7 @@ impl World {
                                 chain: chain_push(&parent, &name),
                                 g: g.to_string(),
                                 wrappers: vec![wid],
+                                kp_ref: kp_refs.get(i).cloned().unwrap_or_default(),
                             },
                         );
                         wnames.push(wn);
@@ -615,9 +644,12 @@ impl World {
         let before = self.chain_of(c, &g, None);
         let cb_before = self.clients[c].cb.0.lock().unwrap().len();
         self.set_override(ots, orank);
+        let t0 = unix_now();
         let cl = &self.clients[c];
         let r = catch_unwind(AssertUnwindSafe(|| with_mdk!(cl.store.as_ref().unwrap(), m => m.process_message(&info.event))));
+        let t1 = unix_now();
         self.clear_override();
+        self.note_snapshots(c, &g, t0, t1);
         let mut out: Option<String> = None;
         let res = match &r {
             Err(_) => "Panic".to_string(),
@@ -670,7 +702,7 @@ impl World {
         };
         let post = self.project(c, &g);
         let now = info.msg.as_ref().map(|m| msg_pa(&post, m)).unwrap_or(0);
-        json!({"op":"Deliver","c":c,"g":g,"e":e,"ts":ots,"rank":orank,"now":now,"res":res,"out":out.unwrap_or_default(),"rollbacks":cbs,"post":post})
+        json!({"op":"Deliver","c":c,"g":g,"e":e,"ts":ots,"rank":orank,"now":now,"t":t1,"res":res,"out":out.unwrap_or_default(),"rollbacks":cbs,"post":post})
     }
 
 
@@ -915,14 +947,57 @@ impl World {
                "parent":chain_json(&parent),"post":self.project(c,g)})
     }
 
-    pub fn op_restart(&mut self, c: &str) -> Value {
+    /// The driver's own clock for snapshot ages (never the store's created_at stamps, which are only used to notice a retake).
+    fn note_snapshots(&mut self, c: &str, g: &str, t0: u64, t1: u64) {
+        let gid = match self.groups.get(g) { Some(gi) => gi.gid.clone(), None => return };
+        let listed: Vec<(String, u64)> = {
+            let cl = &self.clients[c];
+            match cl.store.as_ref() { Some(st) => with_mdk!(st, m => m.provider.storage().list_group_snapshots(&gid)).unwrap_or_default(), None => vec![] }
+        };
+        let cl = self.clients.get_mut(c).unwrap();
+        let names: BTreeSet<String> = listed.iter().map(|(n, _)| n.clone()).collect();
+        cl.snap_born.retain(|(gg, n), _| gg != g || names.contains(n));
+        for (n, stamp) in listed {
+            let k = (g.to_string(), n);
+            match cl.snap_born.get(&k) {
+                Some((_, _, st)) if *st == stamp => {}
+                _ => { cl.snap_born.insert(k, (t0, t1, stamp)); }
+            }
+        }
+    }
+
+    /// Reopen the database. With `ttl` the new instance is built with snapshot_ttl_seconds = ttl; the driver first waits
+    /// until, by its own clock, every stored snapshot is either surely older or surely younger than the TTL at start-up.
+    pub fn op_restart(&mut self, c: &str, ttl: Option<u64>) -> Value {
+        let mut line = json!({"op":"Restart","c":c});
+        if let Some(ttl) = ttl {
+            let mut now;
+            loop {
+                now = unix_now();
+                // the build may run in second `now` or `now + 1`; a snapshot was taken in [t0, t1]
+                let unsure = self.clients[c].snap_born.values().any(|(t0, t1, _)| {
+                    let surely_old = (*t1 as i64) < now as i64 - ttl as i64;
+                    let surely_young = (*t0 as i64) >= now as i64 + 1 - ttl as i64;
+                    !(surely_old || surely_young)
+                });
+                if !unsure { break; }
+                std::thread::sleep(std::time::Duration::from_millis(250));
+            }
+            let cl = self.clients.get_mut(c).unwrap();
+            cl.cfg.snapshot_ttl_seconds = ttl;
+            line["ttl"] = json!(ttl);
+            line["now"] = json!(now);
+        }
         self.clients.get_mut(c).unwrap().restart();
         let gs: Vec<String> = self.groups.keys().cloned().collect();
         let mut posts: Vec<Value> = vec![];
         for g in gs {
+            let (t0, t1) = (unix_now(), unix_now());
+            self.note_snapshots(c, &g, t0, t1);
             posts.push(json!({"g":g,"post":self.project(c, &g)}));
         }
-        json!({"op":"Restart","c":c,"posts":posts})
+        line["posts"] = json!(posts);
+        line
     }
 
     pub fn op_welcome(&mut self, c: &str, w: &str, what: &str, fresh: bool) -> Value {
@@ -962,7 +1037,11 @@ impl World {
         if what == "accept" {
             let _ = self.chain_of(c, &g, Some(&chain));
         }
-        json!({"op":"Welcome","c":c,"g":g,"w":w,"x":xname,"what":what,"res":res,"chain":chain_json(&chain),"post":self.project(c,&g)})
+        // a welcome call must not touch any OTHER group the client holds
+        let hs: Vec<String> = self.groups.keys().filter(|h| **h != g).cloned().collect();
+        let mut others: Vec<Value> = vec![];
+        for h in hs { let p = self.project(c, &h); others.push(json!({"g":h,"post":p})); }
+        json!({"op":"Welcome","c":c,"g":g,"w":w,"x":xname,"what":what,"res":res,"chain":chain_json(&chain),"post":self.project(c,&g),"posts":others})
     }
 
     /// Projection of client `c`'s view of group `g` to the abstract state (null-free JSON).
